@@ -213,7 +213,15 @@ def _subtree(args):
         except EngineLimit as e:
             res["fault"] = "EngineLimit on path %r: %s" % (_short(p), e)
             status = "abort"
-        except Exception as e:
+        except BaseException as e:
+            if not isinstance(e, Exception):
+                # e.g. asyncio.CancelledError leaking out of a harness: a harness fault, never a verdict
+                if isinstance(e, (KeyboardInterrupt, SystemExit)):
+                    raise
+                res["fault"] = "%s escaped the harness on path %r" % (type(e).__name__, _short(p))
+                core.ENG = None
+                eng.end()
+                break
             status = "violation"
             tb = traceback.extract_tb(e.__traceback__)
             where = "%s:%s" % (os.path.basename(tb[-1].filename), tb[-1].name) if tb else "?"
@@ -461,8 +469,8 @@ class Check:
         return r
 
     def _raise(self, st):
-        # precedence: fault > violation > inconclusive > ok
-        order = {EXIT_OK: 0, EXIT_INCONCLUSIVE: 1, EXIT_VIOLATION: 2, EXIT_FAULT: 3}
+        # precedence: violation (replayed concretely on the real code) > fault > inconclusive > ok
+        order = {EXIT_OK: 0, EXIT_INCONCLUSIVE: 1, EXIT_FAULT: 2, EXIT_VIOLATION: 3}
         if order[st] > order[self.status]:
             self.status = st
 
